@@ -181,6 +181,13 @@ def handleLine (st : State) (line : String) : State × String :=
              " proj=" ++ joinOrDash projs ++ " orc=" ++ joinOrDash orcs ++
              (if known.isEmpty then "" else " known=" ++ String.intercalate "," known))
     | _, _ => (st, "bad-san")
+  | ["cmd", pid, inp, out] =>
+    -- a command-line tool's stdout against the library result of its (regenerated) policy
+    match getPolicy st pid, unhexField inp, unhexField out with
+    | some p, some b, some out =>
+      let m := p.sanitize b
+      (st, verdict true (hexField m) (if m == out then [] else ["C15"]) [])
+    | _, _, _ => (st, "bad-cmd")
   | ["idem", pid, inp, o1, o2] =>
     match getPolicy st pid, unhexField inp, unhexField o1, unhexField o2 with
     | some p, some b, some o1, some o2 =>
